@@ -142,4 +142,144 @@ theorem Dtor.replHead_OK (pt : DType) (d : Dtor) (ty : DType) (t : Tok) (hty : t
     refine ⟨⟨?_, hx, hxv⟩, trivial, trivial, by simp⟩
     simpa [hty] using ha
 
+theorem plainVariable_value (x y : Tok) (d : DType) (dox : Option String) (h : x.value = y.value) :
+    plainVariable x d dox = plainVariable y d dox := by
+  simp [plainVariable, h]
+
+/-- all declarators of a statement: `ds` end with `,`, `last` with `;` -/
+def allDtors (ds : List (Dtor × DType)) (last : Dtor × DType) : List (Dtor × DType) := ds ++ [last]
+
+/-- the first declarator of a statement -/
+def firstDtor (ds : List (Dtor × DType)) (last : Dtor × DType) : Dtor :=
+  match ds with
+  | [] => last.1
+  | p :: _ => p.1
+
+/-- **`T d1 , … , dn ;` from `_parse_declarations`**, outside a class, with an active visitor that
+    never raises -/
+theorem parseDeclarations_variables (env : Env) (hnf : env.faultAt = none) (F D : Nat) (tok : CTok) (doxygen : Option String)
+    (pairs : List (Tok × Tok)) (ds : List (Dtor × DType)) (last : Dtor × DType) (w : World) (b0 b' : Buf)
+    (blk : Block) (rest : List Block) (hstack : w.stack = blk :: rest) (hk : blk.hdr.kind ≠ .cls) (hmu : w.muted = false)
+    (hty : tok.type = "NAME") (htv : identVal tok.value = true)
+    (hall : ∀ p ∈ pairs, p.1.type = "DBL_COLON" ∧ p.2.type = "NAME" ∧ plainVal p.2.value = true)
+    (hy0 : Yields env.cfg w.buf (pairs.flatMap (fun p => [p.1, p.2])) b0)
+    (hops : opsHeadOk (firstDtor ds last).ops = true) (hopsv : ∀ o ∈ (firstDtor ds last).ops, o.value ≠ "auto")
+    (hds : ∀ p ∈ ds, p.1.OK (.type (.mk (.name tok.value none :: pairs.map (fun p => .name p.2.value none)) none false) false false) p.2 ∧
+      p.1.sep.type = "," ∧ p.1.ops.length + 1 ≤ F)
+    (hlast : last.1.OK (.type (.mk (.name tok.value none :: pairs.map (fun p => .name p.2.value none)) none false) false false) last.2)
+    (hsep : last.1.sep.type = ";") (hlen : last.1.ops.length + 1 ≤ F)
+    (hy : Yields env.cfg b0 (ds.flatMap (fun p => p.1.toks) ++ last.1.toks) b')
+    (hF : pairs.length + 2 ≤ F) (hF2 : ds.length + 1 ≤ F) :
+    ∃ (wF : World) (evs : List Event) (doxs : List (Option String)) (blkF : Block),
+      interp env (parseDeclarations F (core F (D + 1 + 1)) tok doxygen) w = (wF, .ok ()) ∧
+      SigEq b' wF.buf ∧ wF.stack = blkF :: rest ∧ blkF.id = blk.id ∧ blkF.hdr = blk.hdr ∧
+      wF.events = w.events ++ evs ∧ doxs.length = ds.length + 1 ∧
+      evs.map (·.kind) = varKinds (ds ++ [last]) doxs ∧ (∀ e ∈ evs, e.stateId = blk.id ∧ e.parentId = rest.head?.map (·.id)) ∧
+      (∀ d, doxygen = some d → doxs.head? = some (some d)) ∧
+      wF.delivered = w.delivered + (ds.length + 1) ∧ wF.anon = w.anon ∧ wF.muted = false ∧ wF.nextId = w.nextId := by
+  have hidv := htv
+  simp only [identVal, Bool.and_eq_true, Bool.not_eq_true', bne_iff_ne, ne_eq] at htv
+  obtain ⟨⟨⟨hpv, hnc⟩, _⟩, _⟩ := htv
+  -- the first token of the first declarator
+  have hfirstOK : ∃ ty, (firstDtor ds last).OK (.type (.mk (.name tok.value none :: pairs.map (fun p => .name p.2.value none)) none false) false false) ty := by
+    cases ds with
+    | nil => exact ⟨last.2, hlast⟩
+    | cons p ps => exact ⟨p.2, (hds p (by simp)).1⟩
+  obtain ⟨ty0, hOK0⟩ := hfirstOK
+  obtain ⟨tl, htoks, hrepl⟩ := (firstDtor ds last).toks_head
+  obtain ⟨tlAll, hAll⟩ : ∃ tlAll, ds.flatMap (fun p => p.1.toks) ++ last.1.toks = (firstDtor ds last).head :: tlAll ∧
+      ∀ t, (match ds with
+        | [] => ([] : List (Dtor × DType)).flatMap (fun p => p.1.toks) ++ (last.1.replHead t).toks
+        | p :: ps => ((p.1.replHead t, p.2) :: ps).flatMap (fun p => p.1.toks) ++ last.1.toks) = t :: tlAll := by
+    cases ds with
+    | nil =>
+      refine ⟨tl, by simpa [firstDtor] using htoks, ?_⟩
+      intro t
+      simpa [firstDtor] using hrepl t
+    | cons p ps =>
+      refine ⟨tl ++ (ps.flatMap (fun p => p.1.toks) ++ last.1.toks), ?_, ?_⟩
+      · simp only [firstDtor] at htoks ⊢
+        simp [htoks]
+      · intro t
+        simp only [firstDtor] at hrepl
+        simp [hrepl t]
+  rw [hAll.1] at hy
+  cases hy with
+  | cons hnx hrest =>
+    rename_i bnx
+    have hheadTy : typeStop (firstDtor ds last).head.type = true ∧ (firstDtor ds last).head.type ≠ "<" ∧
+        (firstDtor ds last).head.type ≠ "DBL_COLON" ∧ (firstDtor ds last).head.value ≠ "auto" := by
+      unfold Dtor.head
+      cases hops' : (firstDtor ds last).ops with
+      | nil =>
+        obtain ⟨_, hx, hxv⟩ := hOK0
+        simp only [identVal, Bool.and_eq_true, Bool.not_eq_true', bne_iff_ne, ne_eq] at hxv
+        exact ⟨by rw [hx]; decide, by rw [hx]; decide, by rw [hx]; decide, hxv.2⟩
+      | cons o os =>
+        have ho : o.type = "*" := by simpa [opsHeadOk, hops'] using hops
+        exact ⟨by rw [ho]; decide, by rw [ho]; decide, by rw [ho]; decide, hopsv o (by simp [hops'])⟩
+    obtain ⟨hstop, hlt, hdc, hauto⟩ := hheadTy
+    obtain ⟨w1, t1, hi1, hs1, ht1, hty1, hv1⟩ := parseType_plain env F D true tok pairs w b0 bnx _ hty hpv hnc hall hy0 hnx
+      hstop hlt hdc (by omega)
+    obtain ⟨w2, t2, hi2, hs2, ht2, hty2, hv2⟩ := step_tokenIfP_miss env (fun t => ["auto"].contains t.value) w1 t1 bnx ht1
+      (by intro c _ hcv; show ["auto"].contains c.value = false; rw [hcv, hv1]; simp [hauto])
+    have hsl2 : SameButLog w w2 := hs1.trans hs2.butLog
+    have htop2 := interp_getTop env w2 blk rest (by rw [hsl2.stack]; exact hstack)
+    have hyW : Yields env.cfg w2.buf (t2 :: tlAll) b' := .cons ht2 hrest
+    have ht2ty : t2.type = (firstDtor ds last).head.type := by rw [hty2, hty1]
+    have ht2v : t2.value = (firstDtor ds last).head.value := by rw [hv2, hv1]
+    -- the declarator loop on the stream with the pushed-back copy
+    obtain ⟨wF, evs, doxs, l, blkF, hiF, hsigF, hstF, hidF, hhdrF, _, hevF, hdl, hkinds, hids, hdox, hdlF, hanF, hmuF, hnxF⟩ :
+        ∃ (wF : World) (evs : List Event) (doxs : List (Option String)) (l : LocRef) (blkF : Block),
+          interp env (loopN F (LocRef.tok tok.sidx, doxygen) (declaratorBody F (core F (D + 1 + 1))
+            (.type (.mk (.name tok.value none :: pairs.map (fun p => .name p.2.value none)) none false) false false) {} .none false false)) w2 = (wF, .ok ()) ∧
+          SigEq b' wF.buf ∧ wF.stack = blkF :: rest ∧ blkF.id = blk.id ∧ blkF.hdr = blk.hdr ∧ blkF.loc = l ∧
+          wF.events = w2.events ++ evs ∧ doxs.length = ds.length + 1 ∧
+          evs.map (·.kind) = varKinds (ds ++ [last]) doxs ∧ (∀ e ∈ evs, e.stateId = blk.id ∧ e.parentId = rest.head?.map (·.id)) ∧
+          (∀ d, doxygen = some d → doxs.head? = some (some d)) ∧
+          wF.delivered = w2.delivered + (ds.length + 1) ∧ wF.anon = w2.anon ∧ wF.muted = false ∧ wF.nextId = w2.nextId := by
+      cases ds with
+      | nil =>
+        obtain ⟨hOK', hxv', hsep', hlen'⟩ := Dtor.replHead_OK _ last.1 last.2 t2 (by simpa [firstDtor] using ht2ty)
+          (by simpa [firstDtor] using ht2v) hlast
+        have hyW' := hyW
+        rw [← hAll.2 t2] at hyW'
+        obtain ⟨wF, evs, doxs, l, blkF, h⟩ := declarators_variables env hnf F (D + 1) _ rfl blk.id blk.hdr hk rest []
+          (last.1.replHead t2, last.2) (LocRef.tok tok.sidx) doxygen w2 b' F blk rfl rfl (by rw [hsl2.stack]; exact hstack)
+          (by rw [hsl2.muted]; exact hmu) (by simp) hOK' (by rw [hsep']; exact hsep) (by rw [hlen']; exact hlen) hyW' (by simpa using hF2)
+        refine ⟨wF, evs, doxs, l, blkF, h.1, h.2.1, h.2.2.1, h.2.2.2.1, h.2.2.2.2.1, h.2.2.2.2.2.1, h.2.2.2.2.2.2.1, h.2.2.2.2.2.2.2.1, ?_,
+          h.2.2.2.2.2.2.2.2.2⟩
+        rw [h.2.2.2.2.2.2.2.2.1]
+        cases doxs with
+        | nil => simp [varKinds]
+        | cons dx dxs => simp [varKinds, plainVariable, hxv']
+      | cons p ps =>
+        obtain ⟨hOKp, hpsep, hplen⟩ := hds p (by simp)
+        obtain ⟨hOK', hxv', hsep', hlen'⟩ := Dtor.replHead_OK _ p.1 p.2 t2 (by simpa [firstDtor] using ht2ty)
+          (by simpa [firstDtor] using ht2v) hOKp
+        have hyW' := hyW
+        rw [← hAll.2 t2] at hyW'
+        obtain ⟨wF, evs, doxs, l, blkF, h⟩ := declarators_variables env hnf F (D + 1) _ rfl blk.id blk.hdr hk rest
+          ((p.1.replHead t2, p.2) :: ps) last (LocRef.tok tok.sidx) doxygen w2 b' F blk rfl rfl (by rw [hsl2.stack]; exact hstack)
+          (by rw [hsl2.muted]; exact hmu)
+          (by
+            intro q hq
+            simp only [List.mem_cons] at hq
+            rcases hq with rfl | hq
+            · exact ⟨hOK', by rw [hsep']; exact hpsep, by rw [hlen']; exact hplen⟩
+            · exact hds q (by simp [hq]))
+          hlast hsep hlen hyW' (by simpa using hF2)
+        refine ⟨wF, evs, doxs, l, blkF, h.1, h.2.1, h.2.2.1, h.2.2.2.1, h.2.2.2.2.1, h.2.2.2.2.2.1, h.2.2.2.2.2.2.1,
+          by simpa using h.2.2.2.2.2.2.2.1, ?_, h.2.2.2.2.2.2.2.2.2.1, h.2.2.2.2.2.2.2.2.2.2.1,
+          by simpa using h.2.2.2.2.2.2.2.2.2.2.2.1, h.2.2.2.2.2.2.2.2.2.2.2.2⟩
+        rw [h.2.2.2.2.2.2.2.2.1]
+        cases doxs with
+        | nil => simp [varKinds]
+        | cons dx dxs => simp [varKinds, plainVariable, hxv']
+    refine ⟨wF, evs, doxs, blkF, ?_, hsigF, hstF, hidF, hhdrF, by rw [hevF, hsl2.events], hdl, hkinds, hids, hdox,
+      by rw [hdlF, hsl2.delivered], by rw [hanF, hsl2.anon], hmuF, by rw [hnxF, hsl2.nextId]⟩
+    unfold parseDeclarations
+    simp only [bind, interp_bind, core_parseType, hi1, Option.bind, typenameOf, strTruthy, PQName.classkey, Bool.false_eq_true,
+      ↓reduceIte, pure, interp, Bool.not_false, P.tokenIfVal, hi2, htop2, validate_empty, hiF]
+
 end Cxx
